@@ -67,6 +67,7 @@ type c10env struct {
 	nodes     []*mnode
 	seq       int
 	r         *gen.R
+	def       *mnode // the tree node that is the default logger right now
 }
 
 var c10ts = time.Date(2031, 7, 9, 21, 4, 5, 123456789, time.FixedZone("P", 5*3600+1800))
@@ -254,7 +255,13 @@ func (e *c10env) ops() []c10op {
 				return nil, t.e, false
 			}
 			want := t.children[r.Intn(len(t.children))]
-			ent := t.e.New(want.name)
+			var ent *slog.Entry
+			if r.Bool() {
+				ent = t.e.New(want.name)
+			} else {
+				// ... also when the call carries options: the existing child is handed out as it is
+				ent = t.e.New(want.name, slog.WithLevel(gen.Pick(r, []slog.Level{slog.ErrorLevel, slog.TraceLevel, slog.AlwaysLevel})), slog.WithJSONMode(r.Bool()), slog.WithAttrs(slog.String("given-to-a-lookup", "x")))
+			}
 			if ent != want.e {
 				e.skipClash = fmt.Sprintf("WithWriter(nil) New(%q) on %s did not return the existing direct child of that name (a second child of that name was created: %v)", want.name, t.name, ent.Parent() == t.e && ent.Name() == want.name)
 			}
@@ -301,7 +308,7 @@ func (e *c10env) ops() []c10op {
 			return n, ent, false
 		}},
 		{"WithLevel", func(e *c10env, t *mnode) (*mnode, *slog.Entry, bool) {
-			l := gen.Pick(r, []slog.Level{slog.ErrorLevel, slog.WarnLevel, slog.InfoLevel, slog.DebugLevel, slog.TraceLevel, slog.AlwaysLevel, slog.PanicLevel})
+			l := gen.Pick(r, []slog.Level{slog.ErrorLevel, slog.WarnLevel, slog.InfoLevel, slog.DebugLevel, slog.TraceLevel, slog.AlwaysLevel, slog.PanicLevel, slog.Level(1<<31 + 20), slog.Level(-(1 << 40))})
 			ent := t.e.WithLevel(l)
 			n := e.withChild(t, ent)
 			n.level = l
@@ -379,7 +386,19 @@ func (e *c10env) ops() []c10op {
 			// which logger the package-level functions use says nothing about the tree: Parent/Root/Each stay what the
 			// creation history made them
 			slog.SetDefault(t.e)
+			e.def = t
 			return nil, t.e, false
+		}},
+		{"pkg.SetLevel", func(e *c10env, t *mnode) (*mnode, *slog.Entry, bool) {
+			// the package-level SetLevel sets the level of the logger that is the default one right now - of that logger
+			// alone: not of its children, not of the helpers WithSkip made of it
+			if e.def == nil {
+				return nil, t.e, false
+			}
+			l := gen.Pick(r, []slog.Level{slog.ErrorLevel, slog.WarnLevel, slog.InfoLevel, slog.TraceLevel, slog.AlwaysLevel})
+			slog.SetLevel(l)
+			e.def.level = l
+			return nil, e.def.e, false
 		}},
 		{"WithErrorWriter", func(e *c10env, t *mnode) (*mnode, *slog.Entry, bool) {
 			w, id := pickW()
@@ -435,7 +454,7 @@ func (e *c10env) ops() []c10op {
 			return nil, ent, true
 		}},
 		{"SetLevel", func(e *c10env, t *mnode) (*mnode, *slog.Entry, bool) {
-			l := gen.Pick(r, []slog.Level{slog.ErrorLevel, slog.WarnLevel, slog.InfoLevel, slog.DebugLevel, slog.TraceLevel, slog.AlwaysLevel, slog.FatalLevel})
+			l := gen.Pick(r, []slog.Level{slog.ErrorLevel, slog.WarnLevel, slog.InfoLevel, slog.DebugLevel, slog.TraceLevel, slog.AlwaysLevel, slog.FatalLevel, slog.Level(1<<31 + 20), slog.Level(1 << 40), slog.Level(-(1 << 35))})
 			ent := t.e.SetLevel(l)
 			t.level = l
 			return nil, ent, true
@@ -664,6 +683,7 @@ func c10tree(c *Ctx) {
 		}
 		// roots: two detached loggers and a fresh default logger
 		pkgLevel := slog.GetLevel()
+		defer func(l slog.Level) { slog.SetLevel(l) }(pkgLevel) // what a history did to the package level ends with the case
 		r1name := "r1"
 		if r.P(40) {
 			r1name = "github.com/example/project/cmd/server-with-a-rather-long-name"
@@ -684,6 +704,7 @@ func c10tree(c *Ctx) {
 			slog.SetDefault(def)
 			n3 = e.add(nil, slog.Default().Root())
 		}
+		e.def = n3
 		for _, n := range []*mnode{n1, n2, n3} {
 			if n.level != pkgLevel || n.format != FColor || n.parent != nil {
 				c.R.Violation(idx, "package-new", "C10/package-new", "model construction", nil)
